@@ -139,4 +139,25 @@ theorem recK_unfolded (p : Nat) (s : St Int) (h : RecK (fixedArith p) s) :
       (∀ e ∈ sn.cs, 0 ≤ e.2.2.1 ∧ ∀ k, e.2.2.2.1 = some k → 0 ≤ k ∧ k ≤ pow10 p) ∧ 0 ≤ sn.x1 :=
   h
 
+/-- non-vacuity of `MInit`: two hopeful candidates, two strict ballot lines, nothing counted yet -/
+def tinyMeek : St Int :=
+  { method := Method.meek, seats := 1, nballots := 3
+    cands := [{ cid := 1, order := 1, tie := 1, undeclared := false, st := .hopeful, pending := false, vote := 0, kf := none, quotient := none, tc := 0 },
+              { cid := 2, order := 2, tie := 2, undeclared := false, st := .hopeful, pending := false, vote := 0, kf := none, quotient := none, tc := 0 }]
+    ballots := [{ mult := 2, rank := [1, 2], idx := 0, w := 10000, residual := 0 }, { mult := 1, rank := [2], idx := 0, w := 10000, residual := 0 }]
+    ballotsEq := [], quota := 0, surplus := 0, votes := 0, exhausted := 0, residual := 0, round := 0, rounds := [], acts := [], crash := none }
+
+example : MInit (fixedArith 4) tinyMeek :=
+  { meth := rfl, noActs := rfl
+    wf := by unfold St.WF; decide
+    noEq := rfl
+    tops := by
+      intro b hb; simp [tinyMeek] at hb
+      rcases hb with rfl | rfl
+      · exact ⟨1, rfl, tinyMeek.cands[0], by simp [tinyMeek], rfl, rfl⟩
+      · exact ⟨2, rfl, tinyMeek.cands[1], by simp [tinyMeek], rfl, rfl⟩
+    fresh := by intro c hc; simp [tinyMeek] at hc; rcases hc with rfl | rfl <;> exact ⟨rfl, rfl, Or.inl rfl⟩
+    residual0 := rfl
+    nb := by simp [tinyMeek, fixedArith]; ring }
+
 end Droop.C08
